@@ -106,7 +106,7 @@ func suiteCuckoo(c *Ctx) {
 			n:       ns[c.rng.Intn(len(ns))],
 			b:       []uint64{1, 2, 4, 8}[c.rng.Intn(4)],
 			fpl:     []uint64{1, 2, 3, 4, 8, 1, 2, 3, 17, 19, 20}[c.rng.Intn(11)],
-			retries: []uint64{1, 2, 3, 10, 50, 500}[c.rng.Intn(6)],
+			retries: []uint64{0, 1, 2, 3, 10, 50, 500}[c.rng.Intn(7)],
 			redis:   redis,
 		}
 		if redis && cfg.n > 16 {
